@@ -381,7 +381,12 @@ PIPELINES.append(Pipeline('U2_count_not_removed_bounded', units=[U_isrem, U_coun
 
 TRUSTED = ['std::equal_range on the vector sorted by member id (C++ standard): MembersDatabaseCommon::find() is replaced by its assumed contract',
            'std::sort in prepare_for_lookup()', 'ItemStash (under contract in C15; here its operations are assumed contracts)']
-ASSUMPTIONS = ['the representation invariant of the elements of one member id (same handle; a non-removed element with a valid handle implies the item is in the stash) is assumed at every read of an element handle and proved to be re-established by remove() and add()']
+ASSUMPTIONS = ['HANDLE_OF: the representation invariant of the elements of one member id (same handle; a non-removed element with a valid handle implies the item is in the stash) is assumed at every read of an element handle and proved, at an arbitrary element, to be re-established by remove() and add_object()',
+               'CNT_INST (remove): the consequence of the contract of count_not_removed "count 1 and w not removed ==> every other element removed", assumed at the element the loop looks at',
+               'ARRIVE_INST / ensures of the operator[] stub (add): whole-history facts - an object arrives once; before it has arrived none of its elements is removed; the relation of such an element exists and has at least one outstanding member',
+               'FIND_INST (add): the contract of find() (every element of the range has the id looked up), assumed at the element the loop looks at',
+               'the completion callback changes no counter and alters elements only by marking them removed',
+               'bounded units: at most 5 elements in the members database, at most 3 for one id, at most 4 relations']
 NOT_DECIDED = ['MembersDatabaseCommon::track and prepare_for_lookup (std::sort), RelationsDatabase::add/remove/for_each_relation, the dropped assert(elem.member_num < rel_handle->members().size()) in add()', 'the whole-history statement (every complete relation is handed over exactly once, incomplete ones are listed): only the per-operation contracts that history rests on',
                'RelationsManager / MultipolygonManager templates, the callback-driven flush of the output buffer', 'SecondPassHandler ordering']
 LEVEL_TEXT = ('Proof, per operation, for the counting and release kernel of the relations manager: MembersDatabaseCommon::get_object (a released object is reported as absent), count_not_removed, '
